@@ -39,11 +39,17 @@ Subs(cfg)   == 1..cfg.nsubs
 Usable(cfg) == {cfg.usable[i] : i \in 1..Len(cfg.usable)}
 Lease(cfg)  == cfg.mode = "lease"
 
-\* ghost state g = [held, stamp, stampHi : [Subs -> Int], epoch : Int]
+\* ghost state g = [held, age, ageLo : [Subs -> Int]]: age = epochs since the holding was last
+\* certainly stamped (allocated / renewed), ageLo = epochs since it was possibly stamped (a re-ask
+\* or renew whose persistence failed may or may not have refreshed it); both capped at grace + 1,
+\* so the ghost is finite whatever the number of epoch advances.
 G0(cfg) == [held  |-> [s \in Subs(cfg) |-> None],
-            stamp |-> [s \in Subs(cfg) |-> 0],
-            stampHi |-> [s \in Subs(cfg) |-> 0],
-            epoch |-> 0]
+            age   |-> [s \in Subs(cfg) |-> 0],
+            ageLo |-> [s \in Subs(cfg) |-> 0]]
+
+\* allocation calls (alloc = Allocate, allocm = AllocateWithMAC; the f-variants run with the
+\* persistence write failing)
+AllocOps == {"alloc", "allocf", "allocm", "allocmf"}
 
 HeldUnits(g)       == {g.held[s] : s \in DOMAIN g.held} \ {None}
 HeldByOthers(g, s) == {g.held[t] : t \in (DOMAIN g.held) \ {s}} \ {None}
@@ -52,16 +58,16 @@ HeldByOthers(g, s) == {g.held[t] : t \in (DOMAIN g.held) \ {s}} \ {None}
 \* the set of clause names violated by implementation step e taken in ghost state g
 EdgeClauses(cfg, g, e) ==
   LET s == e.sub IN
-  CASE e.op \in {"alloc", "allocf"} ->
+  CASE e.op \in AllocOps ->
          (IF e.ok /\ g.held[s] # None /\ e.unit # g.held[s] THEN {"Idempotent"} ELSE {})
     \cup (IF e.ok /\ g.held[s] = None /\ e.unit \in HeldUnits(g) THEN {"Unique"} ELSE {})
     \cup (IF e.ok /\ e.unit \notin Usable(cfg) THEN {"InRange"} ELSE {})
     \cup (IF ~e.ok /\ ~e.fault /\ g.held[s] # None THEN {"Idempotent"} ELSE {})
     \cup (IF ~e.ok /\ ~e.fault /\ g.held[s] = None /\ ~(Usable(cfg) \subseteq HeldUnits(g))
             THEN {"FalseExhaustion"} ELSE {})
-  [] e.op = "release" ->
+  [] e.op \in {"release", "releasef"} ->
          (IF ~e.ok /\ ~e.fault /\ g.held[s] # None THEN {"ReleaseEffective"} ELSE {})
-  [] e.op = "renew" ->
+  [] e.op \in {"renew", "renewf"} ->
          (IF ~e.ok /\ ~e.fault /\ Lease(cfg) /\ g.held[s] # None THEN {"Retained"} ELSE {})
   [] e.op \in {"specific", "setalloc"} ->
          (IF e.ok /\ e.arg \in HeldByOthers(g, s) THEN {"Unique"} ELSE {})
@@ -70,31 +76,39 @@ EdgeClauses(cfg, g, e) ==
   [] OTHER -> {}
 
 \* the ghost state after implementation step e; lk = the lookup answers observed after it.
-\* A lease holding is certainly live while epoch - stamp <= grace, certainly lapsed once
-\* epoch - stampHi > grace; stampHi > stamp only after a re-ask whose persistence failed (the
-\* subscriber got an error, the pool may or may not have refreshed the lease): in between,
-\* the ghost follows what the pool reports.
+\* A lease holding is certainly live while age <= grace, certainly lapsed once ageLo > grace; in
+\* between (only after a failed re-persist) the ghost follows what the pool reports.
+Cap(cfg, n) == IF n > cfg.grace + 1 THEN cfg.grace + 1 ELSE n
 Step(cfg, g, e, lk) ==
   LET s == e.sub IN
-  CASE e.op \in {"alloc", "allocf"} ->
-         IF e.ok THEN [g EXCEPT !.held[s] = e.unit, !.stamp[s] = g.epoch, !.stampHi[s] = g.epoch]
-         ELSE IF e.fault /\ g.held[s] # None THEN [g EXCEPT !.stampHi[s] = g.epoch]
+  CASE e.op \in AllocOps ->
+         IF e.ok THEN [g EXCEPT !.held[s] = e.unit, !.age[s] = 0, !.ageLo[s] = 0]
+         ELSE IF e.fault /\ g.held[s] # None THEN [g EXCEPT !.ageLo[s] = 0]
          ELSE g
-    [] e.op = "release" -> IF e.ok THEN [g EXCEPT !.held[s] = None] ELSE g
-    [] e.op = "renew"   -> IF e.ok /\ g.held[s] # None THEN [g EXCEPT !.stamp[s] = g.epoch, !.stampHi[s] = g.epoch] ELSE g
+    [] e.op \in {"release", "releasef"} -> IF e.ok THEN [g EXCEPT !.held[s] = None] ELSE g
+    [] e.op \in {"renew", "renewf"} ->
+         IF e.ok /\ g.held[s] # None THEN [g EXCEPT !.age[s] = 0, !.ageLo[s] = 0]
+         ELSE IF e.fault /\ g.held[s] # None THEN [g EXCEPT !.ageLo[s] = 0]
+         ELSE g
     [] e.op = "advance" ->
-         LET ep == g.epoch + 1 IN
-         [g EXCEPT !.epoch = ep,
-                   !.held  = [t \in DOMAIN g.held |->
-                                IF ~Lease(cfg) \/ g.held[t] = None THEN g.held[t]
-                                ELSE IF ep - g.stampHi[t] > cfg.grace THEN None
-                                ELSE IF ep - g.stamp[t] <= cfg.grace THEN g.held[t]
-                                ELSE IF lk[t] = None THEN None ELSE g.held[t]]]
+         LET a2(t)  == Cap(cfg, g.age[t] + 1)
+             lo2(t) == Cap(cfg, g.ageLo[t] + 1)
+             gone(t) == Lease(cfg) /\ g.held[t] # None /\
+                          (lo2(t) > cfg.grace \/ (a2(t) > cfg.grace /\ lk[t] = None))
+         IN [g EXCEPT !.held  = [t \in DOMAIN g.held |-> IF gone(t) THEN None ELSE g.held[t]],
+                      !.age   = [t \in DOMAIN g.held |-> a2(t)],
+                      !.ageLo = [t \in DOMAIN g.held |-> lo2(t)]]
     [] e.op \in {"specific", "setalloc"} ->
-         IF e.ok THEN [g EXCEPT !.held[s] = e.arg, !.stamp[s] = g.epoch, !.stampHi[s] = g.epoch] ELSE g
+         IF e.ok THEN [g EXCEPT !.held[s] = e.arg, !.age[s] = 0, !.ageLo[s] = 0] ELSE g
     [] e.op = "relunit" ->
          IF e.ok THEN [g EXCEPT !.held = [t \in DOMAIN g.held |-> IF g.held[t] = e.arg THEN None ELSE g.held[t]]]
          ELSE g
+    [] e.op = "rput" ->   \* another node announces s -> arg; not applicable when another subscriber holds arg here
+         IF e.ok /\ e.arg \notin HeldByOthers(g, s)
+         THEN [g EXCEPT !.held[s] = e.arg, !.age[s] = 0, !.ageLo[s] = 0] ELSE g
+    [] e.op = "rdel" -> [g EXCEPT !.held[s] = None]
+    [] e.op = "restart" ->   \* a restart reloads every stored lease as fresh
+         [g EXCEPT !.age = [t \in DOMAIN g.held |-> 0], !.ageLo = [t \in DOMAIN g.held |-> 0]]
     [] OTHER -> g   \* reload, lookups: no change of what subscribers hold
 
 Injective(f) == \A a, b \in DOMAIN f : a # b /\ f[a] # None => f[a] # f[b]
